@@ -30,7 +30,9 @@ Ignore == "ignore"   \* #[educe(T(ignore))] / #[educe(T = false)]
 Method == "method"   \* #[educe(T(method(path)))]
 Treatments == {Own, Ignore, Method}
 
-NoRank == "none"     \* no explicit rank: isize::MIN + declaration index
+NoRank == -999       \* no explicit rank: isize::MIN + declaration index
+NoDisc == -999       \* no explicit discriminant: previous + 1 (0 for the first)
+MinRank == -100000   \* stands for isize::MIN
 
 \* The universal field record.  Every MC module starts from DefField and
 \* overrides the keys of the trait(s) it studies.
@@ -52,7 +54,7 @@ DefField ==
 DefVariant ==
   [ style  |-> "unit",
     fields |-> <<>>,
-    disc   |-> "none",   \* explicit discriminant or "none"
+    disc   |-> NoDisc,   \* explicit discriminant or NoDisc
     dname  |-> "default",\* variant-level Debug name: "default" | "off" | "custom"
     dnf    |-> "default",\* variant-level named_field: "default" | "true" | "false"
     dflt   |-> FALSE     \* #[educe(Default)] marker
